@@ -1,13 +1,24 @@
 module verif
 
-go 1.18
+go 1.22.0
+
+toolchain go1.23.5
 
 require github.com/unixpickle/model3d v0.0.0
+
+require (
+	golang.org/x/mod v0.22.0 // indirect
+	golang.org/x/sync v0.10.0 // indirect
+)
 
 require (
 	github.com/pkg/errors v0.9.1 // indirect
 	github.com/unixpickle/essentials v1.3.0 // indirect
 	github.com/unixpickle/splaytree v1.1.0 // indirect
+	golang.org/x/tools v0.29.0
+	vshim v0.0.0
 )
 
 replace github.com/unixpickle/model3d => /repo
+
+replace vshim => /verif/shim
